@@ -38,7 +38,8 @@ def _vals(tier):
              ("list", [("dec", "1.5e3"), ("bare", "5abc"), ("q", "")]),
              ("tuple", [("bare", "DisplayName", ("q", "The Command"))]), ("tuple", [("q", "A", ("q", "B")), ("bare", "C", ("bare", "D"))]),
              ("tuple", [("bare", "k1", ("int", "5")), ("q", "k 2", ("dec", "2.5")), ("bare", "k3", ("q", "x:y"))]),
-             ("tuple", [("bare", "Color", ("bare", "Blue"))])]
+             ("tuple", [("bare", "Color", ("bare", "Blue"))]), ("tuple", [("bare", "Visible", ("bare", "True")), ("bare", "False", ("bare", "no"))]),
+             ("tuple", [("bare", "Kind", ("bare", "True north")), ("q", "True", ("q", "False"))]), ("list", [("bare", "True"), ("bare", "False"), ("bare", "True Color")])]
     return vals + lists
 
 
